@@ -13,13 +13,16 @@ CLAIM = dict(
          'guard switched off TLC exhibits the NaN of D8). TLC expands a*prod(x - r_i) for every multiset of <= 5 (quick: 4) small Gaussian-integer roots; the real '
          'Polynomial<f64>/<Cmplx>::roots is run on them and on seeded random polynomials of degree 1..12 (discs, circles, clusters, multiplicities, zero roots, purely imaginary '
          'roots, binomials, scaled roots, random coefficients with ratios up to 1e6), refine false/true, and every call is validated: count = degree, all finite, normwise '
-         'backward error max_z |p(z)|/(max|a_k| max(1,|z|)^n) <= 1e-6 (1e-4 for a cubic solved without refinement), for separated roots a one-to-one match within 1e-6*scale (for integer roots decided by TLC as set '
+         'backward error max_z |p(z)|/(max|a_k| max(1,|z|)^n) within the per-path guard of Roots.tla (1e-13 linear, 2e-13 quadratic and refined cubic, 5e-13 degree >= 4 refined, 1e-8 degree >= 4 unrefined, 1e-4 unrefined cubic), for separated roots a one-to-one match within 1e-6*scale (for integer roots decided by TLC as set '
          'equality of the rounded values), degree 0 => panic.',
     note='The exact quadratic/triple-root branches and the skeleton are decided by TLC at design level; the values returned by the real code are judged on harness measurements '
-         '(double-double Horner) against calibrated constants: 1e-6 (worst conforming value over 22 seeds / 1e6 calls: 6.3e-11) except for the cubic solved by Cardano\'s '
-         'formula without refinement, where the discriminant cancels for near-triple roots (worst 1.3e-7, guard 1e-4). Two genuine defect classes are listed in '
+         '(double-double Horner) against per-path constants calibrated on the unchanged tree (22 seeds, 1.96e6 calls) and frozen at >= 100x the worst conforming value: '
+         'degree 1: 1e-15 -> 1e-13; degree 2: 2e-15 -> 2e-13; refined cubic 2e-15 -> 2e-13; degree >= 4 refined 5e-15 -> 5e-13; degree >= 4 unrefined 6.3e-11 -> 1e-8; '
+         'unrefined cubic 1.3e-7 (Cardano cancels for near-multiple roots) -> 1e-4. Sequences of calls on ONE object (roots with both flags, repeated, interleaved with '
+         'IndexMut / coeffs() assignment, push, pop / trim) are judged against the current coefficients, so remembered results are rejected. '
+         'Three genuine defect classes are listed in '
          'known_findings.json and reported as KNOWN-FINDING (Laguerre cycling on (near-)symmetric root configurations, degree >= 4: accuracy clauses of the classes '
-         'binomial/ring/sparse/coeffs; loss of a zero root when a cubic is polished: matching clause); count, finiteness and rejection stay checked for them. "Well separated" is made precise as: all roots distinct and absolute root condition <= 1e3*scale (computed from the true roots at generation '
+         'binomial/ring/sparse/coeffs; loss of a zero root when a cubic is polished: matching clause; unrefined Complex cubic with d1 on the imaginary axis: accuracy clauses); count, finiteness and rejection stay checked for them. "Well separated" is made precise as: all roots distinct and absolute root condition <= 1e3*scale (computed from the true roots at generation '
          'time), or distinct Gaussian-integer roots for the TLC cases. The path taken inside the real code (which formula, how many Laguerre iterations) is not observed.',
     design='4 (C10)')
 
@@ -57,21 +60,23 @@ def check(ctx):
     ctx.validate('Trace_Roots', ev2, cases, 'roots', nontrivial=nt, key=key)
     # calibration record
     worst_be, worst_m, cls, nsep = {}, 0, {}, 0
+    def path(e):
+        d, r = e['deg'], e['refine']
+        return 'deg1' if d == 1 else 'deg2' if d == 2 else ('deg3/refined' if r else 'deg3/unrefined') if d == 3 else ('deg>=4/refined' if r else 'deg>=4/unrefined')
     for p in (ev1, ev2):
         for line in open(p):
             e = json.loads(line)
             cls[e['cls']] = cls.get(e['cls'], 0) + 1
-            if e['deg'] >= 1 and e['lead_nz'] and not e['panic'] and e['fam'] != 'lagcycle':
-                k = 'cubic/no-refine' if (e['deg'] == 3 and not e['refine']) else 'other'
+            if e['deg'] >= 1 and e['lead_nz'] and not e['panic'] and e['fam'] not in ('lagcycle', 'cardanoaxis'):
                 if e['chk'] in ('all', 'be'):
-                    worst_be[k] = max(worst_be.get(k, 0), e['be_e15'])
+                    worst_be[path(e)] = max(worst_be.get(path(e), 0), e['be_e15'])
                 if e['sep'] and e['chk'] == 'all':
                     nsep += 1
                     worst_m = max(worst_m, e['match_e12'])
     ctx.notes.append('events per class: %s; separated-root events: %d' % (cls, nsep))
-    ctx.notes.append('calibration (this run): worst backward error %s (units of 1e-15; guards 1e-6 = 1e9 units, cubic/no-refine 1e-4 = 1e11 units; known-finding classes excluded); worst matching distance for separated roots %d units of 1e-12*scale (guard 1e-6 = 1e6 units)' % (worst_be, worst_m))
+    ctx.notes.append('calibration (this run): worst backward error %s (units of 1e-15, per path; guards: Roots.tla BeGuardE15 / BeGuardE6; known-finding classes excluded); worst matching distance for separated roots %d units of 1e-12*scale (guard 1e-6 = 1e6 units)' % (worst_be, worst_m))
     return ctx.finish(
         rule='cases: (i) every TLC-expanded product over multisets of small Gaussian-integer roots (f64 when the coefficients are real, Cmplx always), (ii) for every degree 1..12 '
-             'and both coefficient types ten seeded root/coefficient patterns, (iii) the input classes of D4/D8, degree 0 and the empty list; each with refine = false and true. '
+             'and both coefficient types ten seeded root/coefficient patterns, (iii) the input classes of D4/D8, degree 0 and the empty list, (iv) every combination of zero / real / imaginary / general coefficients in every position of degree-1..3 polynomials with magnitudes spread up to 1e6 both ways, (v) sequences of calls and mutations on one object; each with refine = false and true. '
              'One event per call; distinct = distinct (class, degree, settings, measurements).',
         trusted=['harness measurements in double-double (harness/src/suites/roots.rs, dd.rs)', 'TLC', 'Roots.tla / Poly.tla'])
